@@ -265,12 +265,6 @@ def evaluate(pieces: Sequence[Any], strings: Sequence[str]) -> Tuple[List[Tuple[
     info["outcome"] = "accepted"
     tinfo = _tree_info(tree)
     info.update(tinfo)
-    cls = None  # type: Optional[str]
-    if tinfo["empty_set"]:
-        cls = "empty-char-set-accepted"
-    elif tinfo["caret_range_first"]:
-        cls = "caret-range-first-in-set-rendered-without-end"
-
     try:
         dumped = retree.dump(tree)
         rendered = retree.render(tree)
@@ -285,6 +279,32 @@ def evaluate(pieces: Sequence[Any], strings: Sequence[str]) -> Tuple[List[Tuple[
     r = "".join(p if isinstance(p, str) else _PLACEHOLDER for p in rendered)
     info["r"] = r
 
+    # (c) the rendering parses back to the same tree
+    try:
+        tree2, err2 = retree.parse(list(rendered) if fv_mode else [r])
+    except BaseException as e:  # noqa
+        fails.append((f"reparse-raises-{xbucket(e)}", f"{shown} -> {r!r}\n{runner.exc_text(e)}"))
+        return fails, info
+    roundtrip_ok = err2 is None and retree.dump(tree2) == dumped
+
+    # root-cause class, where it is recognisable from the tree
+    cls = None  # type: Optional[str]
+    if tinfo["empty_set"]:
+        cls = "empty-char-set-accepted"
+    elif tinfo["caret_range_first"] and not roundtrip_ok:
+        cls = "caret-range-first-in-set-rendered-without-end"
+
+    if err2 is not None:
+        c = cls or ("rendered-escaped-brace-rejected-by-parser" if ("\\}" in r or "\\{" in r)
+                    else "rerender-not-reparsable:other")
+        fails.append((c, f"rerender-not-reparsable: {shown} is rendered as {r!r}, which retree "
+                         f"rejects: {err2.message}"))
+    elif not roundtrip_ok:
+        c = cls or "rerender-tree-differs:other"
+        fails.append((c, f"rerender-tree-differs: {shown} -> {r!r}\n--- tree\n{dumped}\n"
+                         f"--- re-parsed\n{retree.dump(tree2)}"))
+
+    # (a), (b): both texts are valid for re and denote the same language
     ps, s_err = _try_compile(s)
     pr, r_err = _try_compile(r)
     info["s_compiles"] = ps is not None
@@ -312,22 +332,6 @@ def evaluate(pieces: Sequence[Any], strings: Sequence[str]) -> Tuple[List[Tuple[
             else:
                 c = "lang-differs:other"
             fails.append((c, f"lang-differs: {shown} re-rendered as {r!r} differs {diff}"))
-
-    # (c) the rendering parses back to the same tree
-    try:
-        tree2, err2 = retree.parse(list(rendered) if fv_mode else [r])
-    except BaseException as e:  # noqa
-        fails.append((f"{pre}reparse-raises-{xbucket(e)}", f"{shown} -> {r!r}\n{runner.exc_text(e)}"))
-        return fails, info
-    if err2 is not None:
-        c = cls or ("rendered-escaped-brace-rejected-by-parser" if ("\\}" in r or "\\{" in r)
-                    else "rerender-not-reparsable:other")
-        fails.append((c, f"rerender-not-reparsable: {shown} is rendered as {r!r}, which retree "
-                         f"rejects: {err2.message}"))
-    elif retree.dump(tree2) != dumped:
-        c = cls or "rerender-tree-differs:other"
-        fails.append((c, f"rerender-tree-differs: {shown} -> {r!r}\n--- tree\n{dumped}\n"
-                         f"--- re-parsed\n{retree.dump(tree2)}"))
     return fails, info
 
 
